@@ -45,6 +45,14 @@ def run(tier, seed):
                    overrides=OV, run_kw=rk, **fk),
               dict(name='C16_downgrade', progs=down, plans=[[]], alphabet=mixed, k=3, overrides=OV, run_kw=rk)]
         mc.append(dict(name='C16_downgrade', progs=down, plans=[[]], alphabet=mixed, k=3, invariants=INV, overrides=OV))
+    # what the communicator does when the process subscribes (construction): a time-out of one subscription is tolerated and must
+    # leave the other one alone; anything else propagates from the constructor
+    pe = core_model.plan_entry
+    subp = [[]] + [[pe(h, 1, 'fault', kind)] for h in ('sub_rpc', 'sub_bc') for kind in ('TimeoutError', 'X')]
+    subs = dict(name='C16_subscriptions', progs=C.fam(['P03', 'P04'] if tier == 'quick' else ['P01', 'P03', 'P04', 'P05', 'P08']), plans=subp,
+                alphabet=['rpc', 'bcast', 'kill'], k=2 if tier == 'quick' else 3, overrides=OV)
+    mc.append(dict(subs, invariants=INV + ['C16_Subscribed', 'C03_Construction']))
+    rp.append(dict(subs, run_kw=rk))
     mc.append(dict(closed, invariants=['C16_Unsubscribed', 'C16_Reply']))
     rp.append(dict(closed, run_kw=rk))
     return core_check.run_check(
